@@ -193,7 +193,7 @@ struct Model {
 /// number of ids taken from the donor channel
 const FOREIGN: usize = 3;
 /// slot.num of a request with a foreign id is FOREIGN_BASE + its index
-const FOREIGN_BASE: u64 = 100;
+const FOREIGN_BASE: u64 = 1 << 40;
 
 impl Model {
     fn latest(&self) -> i32 {
